@@ -41,7 +41,7 @@ FUNCS = {
     'spatialmath/base/transforms2d.py': ['trexp2'],
 }
 
-# the branch skeleton the hand model (theories/Model/C03_ExpLog.v) was written against: if-tests (local
+# (SOFT, see EXPECTED_SOFT) the statement skeleton the hand model (theories/Model/C03_ExpLog.v) was written against: if-tests (local
 # variable names replaced by `_`, numeric factors of _eps by `K`), else / return / raise markers, in source order
 EXPECTED_SKELETON = {
     'iseye': ['if len(_) != 2 or _[0] != _[1]', 'return', 'endif', 'return'],
@@ -81,6 +81,123 @@ EXPECTED_SKELETON = {
     'vex': ['if s.shape == (3, 3)', 'if check and (not isskew(s))', 'raise ValueError', 'endif', 'return', 'else',
             'if s.shape == (2, 2)', 'return', 'else', 'raise ValueError', 'endif', 'endif'],
 }
+
+# HARD: guard multiset (see _guards) the hand model was written against; (tests, flag parameters)
+EXPECTED_GUARDS = {'iseye': (['len(S.shape) != 2 or S.shape[0] != S.shape[1]'], []),
+ 'isunittwist': (['len(v) == 6'], []),
+ 'isunittwist2': (['len(v) == 3'], []),
+ 'isunitvec': ([], []),
+ 'iszero': ([], []),
+ 'iszerovec': ([], []),
+ 'rodrigues': (['base.iszerovec(w)', 'len(w) == 1', 'theta is None'], []),
+ 'skew': (['len(v) == 1', 'len(v) == 3'], []),
+ 'trexp': (['base.ismatrix(S, (3, 3))',
+            'base.ismatrix(S, (3, 3)) or base.isvector(S, 3)',
+            'base.ismatrix(S, (4, 4))',
+            'base.ismatrix(S, (4, 4)) or base.isvector(S, 6)',
+            'base.iszerovec(_)',
+            'check and (not base.isskew(S))',
+            'check and (not base.isskewa(S))',
+            'not base.isunittwist(_)',
+            'theta == 0',
+            'theta is None',
+            'theta is not None and (not base.isunitvec(_))'],
+           []),
+ 'trexp2': (['base.ismatrix(S, (2, 2))',
+             'base.ismatrix(S, (2, 2)) or base.isvector(S, 1)',
+             'base.ismatrix(S, (3, 3))',
+             'base.ismatrix(S, (3, 3)) or base.isvector(S, 3)',
+             'base.iszerovec(_)',
+             'check and (not base.isskew(S))',
+             'check and (not base.isskewa(S))',
+             'not base.isunittwist2(_)',
+             'theta is None',
+             'theta is not None and (not base.isunitvec(_))'],
+            []),
+ 'trlog': (['abs(np.trace(_) + 1) < K * _eps', 'base.iseye(T)', 'base.iseye(_)', 'base.iseye(_)', 'ishom(T, check=check)', 'isrot(T, check=check)'],
+           ['twist']),
+ 'unittwist2_norm': (['iszero(S[2])'], []),
+ 'unittwist_norm': (['iszerovec(S, tol=tol)', 'iszerovec(S[3:6])'], []),
+ 'unitvec_norm': (['np.linalg.norm(v) > K * _eps'], []),
+ 'vex': (['check and (not isskew(s))', 's.shape == (2, 2)', 's.shape == (3, 3)'], [])}
+
+# SOFT: callees / numeric constants / raised kinds (and EXPECTED_SKELETON above): a difference only escalates T-num
+EXPECTED_SOFT = {'iseye': {'calls': ['eye', 'len', 'norm'], 'consts': ['0', '1', '10', '2'], 'raises': []},
+ 'isunittwist': {'calls': ['getvector', 'isunitvec', 'len', 'norm'], 'consts': ['0', '10', '3', '6'], 'raises': ['ValueError']},
+ 'isunittwist2': {'calls': ['abs', 'getvector', 'isunitvec', 'len'], 'consts': ['0', '10', '2', '3'], 'raises': ['ValueError']},
+ 'isunitvec': {'calls': ['abs', 'norm'], 'consts': ['1', '10'], 'raises': []},
+ 'iszero': {'calls': ['abs'], 'consts': ['10'], 'raises': []},
+ 'iszerovec': {'calls': ['norm'], 'consts': ['10'], 'raises': []},
+ 'rodrigues': {'calls': ['cos', 'eye', 'getvector', 'iszerovec', 'len', 'sin', 'skew', 'unitvec_norm'],
+               'consts': ['0', '1', '1.0', '2', '3'],
+               'raises': []},
+ 'skew': {'calls': ['ValueError', 'array', 'getvector', 'len'], 'consts': ['0', '1', '2', '3'], 'raises': ['ValueError']},
+ 'trexp': {'calls': ['ValueError',
+                     'cos',
+                     'eye',
+                     'getvector',
+                     'ismatrix',
+                     'isskew',
+                     'isskewa',
+                     'isunittwist',
+                     'isunitvec',
+                     'isvector',
+                     'iszerovec',
+                     'rodrigues',
+                     'rt2tr',
+                     'sin',
+                     'skew',
+                     'unittwist_norm',
+                     'vex',
+                     'vexa'],
+           'consts': ['0', '1.0', '3', '4', '6'],
+           'raises': ['ValueError', 'ValueError', 'ValueError', 'ValueError', 'ValueError']},
+ 'trexp2': {'calls': ['ValueError',
+                      'cos',
+                      'eye',
+                      'getvector',
+                      'ismatrix',
+                      'isskew',
+                      'isskewa',
+                      'isunittwist2',
+                      'isunitvec',
+                      'isvector',
+                      'iszerovec',
+                      'rodrigues',
+                      'rt2tr',
+                      'sin',
+                      'skew',
+                      'unittwist2_norm',
+                      'vex',
+                      'vexa'],
+            'consts': ['0', '1', '1.0', '2', '3'],
+            'raises': ['ValueError', 'ValueError', 'ValueError', 'ValueError', 'ValueError']},
+ 'trlog': {'calls': ['Ab2M',
+                     'ValueError',
+                     'abs',
+                     'acos',
+                     'argmax',
+                     'diagonal',
+                     'eye',
+                     'iseye',
+                     'ishom',
+                     'isrot',
+                     'norm',
+                     'sin',
+                     'skew',
+                     'sqrt',
+                     'tan',
+                     'tr2rt',
+                     'trace',
+                     'trlog',
+                     'vex',
+                     'zeros'],
+           'consts': ['0', '1', '100', '2', '3', '4', '6'],
+           'raises': ['ValueError']},
+ 'unittwist2_norm': {'calls': ['abs', 'getvector', 'iszero', 'norm'], 'consts': ['0', '2', '3'], 'raises': []},
+ 'unittwist_norm': {'calls': ['getvector', 'iszerovec', 'norm'], 'consts': ['0', '10', '3', '6'], 'raises': []},
+ 'unitvec_norm': {'calls': ['getvector', 'norm'], 'consts': ['100'], 'raises': []},
+ 'vex': {'calls': ['ValueError', 'array', 'isskew'], 'consts': ['0', '1', '2', '3'], 'raises': ['ValueError', 'ValueError']}}
 
 # threshold sites: function -> (field of the thr record, comparison operator the model uses, which side k*_eps is on)
 SITES = {
@@ -229,7 +346,10 @@ def _eps_compares(fn):
                         k = dflt[e.left.id]
                     else:
                         raise TConstError(f"{fn.name}: threshold factor `{ast.unparse(e.left)}` is neither a literal nor a defaulted parameter")
-                    res.append((type(n.ops[0]).__name__, k, side, n.lineno))
+                    op = type(n.ops[0]).__name__
+                    if side == 'left':      # canonical form: k*_eps on the right (`k*_eps < a` is `a > k*_eps`)
+                        op, side = {'Lt': 'Gt', 'Gt': 'Lt', 'LtE': 'GtE', 'GtE': 'LtE'}.get(op, op), 'right'
+                    res.append((op, k, side, n.lineno))
     return sorted(res, key=lambda r: r[3])
 
 
@@ -1008,6 +1128,133 @@ def oracle(ctx, K):
             same('Twist2.SE2', lambda: Twist2(tw2).SE2().A, T2, rp)
             same('Twist2.exp:theta', lambda: Twist2(tw2).exp(k).A, base.trexp2(tw2 * k), dict(rp, theta=k))
 
+    # ------------------------------------------------------------------ aliasing / poisoning of returned arrays
+    def alias():
+        """every exp/log entry point must return a fresh array: not sharing memory with an argument or with an earlier
+        result, and overwriting a returned array in place must not change any later result (a shared module-level
+        identity returned on the zero-rotation path would be corrupted by the first caller that writes into exp(0))."""
+        w, tw = np.array([0.3, -0.2, 0.5]), np.array([1.0, 2.0, 3.0, 0.3, -0.2, 0.5])
+        u = w / np.linalg.norm(w)
+        z3, z6 = np.zeros(3), np.zeros(6)
+        tiny3 = np.array([1e-17, 0, 0])
+        Rg, Tg = rot_from_axis_angle(u, 0.7), np.eye(4)
+        Tg[:3, :3], Tg[:3, 3] = Rg, [1.0, -2.0, 0.5]
+        Tt = np.eye(4)
+        Tt[:3, 3] = [1.0, 2.0, 3.0]
+        Rh = rot_from_axis_angle(u, math.pi)
+        R2, T2 = rot2_np(0.4), np.eye(3)
+        T2[:2, :2], T2[:2, 2] = R2, [1.0, -2.0]
+        Tt2 = np.eye(3)
+        Tt2[:2, 2] = [1.0, 2.0]
+        E = [  # (entry point, thunk, ndarray arguments, independent reference or None)
+            ('trexp:so3-zero-vector', lambda: base.trexp(z3), [z3], np.eye(3)),
+            ('trexp:so3-below-zero-threshold', lambda: base.trexp(tiny3), [tiny3], np.eye(3)),
+            ('trexp:so3-zero-matrix', lambda a=np.zeros((3, 3)): base.trexp(a), [], np.eye(3)),
+            ('trexp:so3-vector', lambda: base.trexp(w), [w], ref_expm(skew_np(w))),
+            ('trexp:so3-matrix', lambda a=skew_np(w): base.trexp(a), [], ref_expm(skew_np(w))),
+            ('trexp:so3-theta-form', lambda: base.trexp(u, 0.7), [u], Rg),
+            ('trexp:so3-theta-form-zero', lambda: base.trexp(u, 0.0), [u], np.eye(3)),
+            ('trexp:se3-zero-vector', lambda: base.trexp(z6), [z6], np.eye(4)),
+            ('trexp:se3-zero-matrix', lambda a=np.zeros((4, 4)): base.trexp(a), [], np.eye(4)),
+            ('trexp:se3-vector', lambda: base.trexp(tw), [tw], ref_expm(skewa_np(tw))),
+            ('trexp:se3-pure-translation', lambda a=np.r_[1.0, 2.0, 3.0, 0, 0, 0]: base.trexp(a), [], Tt),
+            ('trexp:se3-theta-form', lambda a=np.r_[1.0, 2.0, 3.0, u]: base.trexp(a, 0.7), [], None),
+            ('trexp:se3-theta-form-zero', lambda a=np.r_[1.0, 2.0, 3.0, u]: base.trexp(a, 0), [], np.eye(4)),
+            ('rodrigues:zero', lambda: base.rodrigues(z3), [z3], np.eye(3)),
+            ('rodrigues:zero-with-theta', lambda: base.rodrigues(z3, 0.5), [z3], np.eye(3)),
+            ('rodrigues:1-vector-zero', lambda: base.rodrigues([0.0]), [], np.eye(2)),
+            ('rodrigues:vector', lambda: base.rodrigues(w), [w], ref_expm(skew_np(w))),
+            ('trexp2:so2-zero', lambda: base.trexp2([0.0]), [], np.eye(2)),
+            ('trexp2:so2-zero-matrix', lambda a=np.zeros((2, 2)): base.trexp2(a), [], np.eye(2)),
+            ('trexp2:so2', lambda: base.trexp2([0.4]), [], R2),
+            ('trexp2:se2-zero', lambda: base.trexp2(z3), [z3], np.eye(3)),
+            ('trexp2:se2-pure-translation', lambda a=np.array([1.0, 2.0, 0.0]): base.trexp2(a), [], Tt2),
+            ('trexp2:se2', lambda a=np.array([1.0, -2.0, 0.4]): base.trexp2(a), [], ref_expm(skewa2_np([1.0, -2.0, 0.4]))),
+            ('trlog:so3-identity', lambda a=np.eye(3): base.trlog(a), [], np.zeros((3, 3))),
+            ('trlog:so3-identity-twist', lambda a=np.eye(3): base.trlog(a, twist=True), [], np.zeros(3)),
+            ('trlog:so3-general', lambda: base.trlog(Rg), [Rg], skew_np(u * 0.7)),
+            ('trlog:so3-general-twist', lambda: base.trlog(Rg, twist=True), [Rg], u * 0.7),
+            ('trlog:so3-half-turn-twist', lambda: base.trlog(Rh, check=False, twist=True), [Rh], None),
+            ('trlog:se3-identity', lambda a=np.eye(4): base.trlog(a), [], np.zeros((4, 4))),
+            ('trlog:se3-identity-twist', lambda a=np.eye(4): base.trlog(a, twist=True), [], np.zeros(6)),
+            ('trlog:se3-pure-translation', lambda: base.trlog(Tt), [Tt], skewa_np(np.r_[1.0, 2.0, 3.0, 0, 0, 0])),
+            ('trlog:se3-pure-translation-twist', lambda: base.trlog(Tt, twist=True), [Tt], np.r_[1.0, 2.0, 3.0, 0, 0, 0]),
+            ('trlog:se3-general', lambda: base.trlog(Tg), [Tg], None),
+            ('trlog:se3-general-twist', lambda: base.trlog(Tg, twist=True), [Tg], None),
+            ('trlog2:so2-identity', lambda a=np.eye(2): base.trlog2(a), [], np.zeros((2, 2))),
+            ('trlog2:so2', lambda: base.trlog2(R2, twist=True), [R2], np.array([0.4])),
+            ('trlog2:se2-identity', lambda a=np.eye(3): base.trlog2(a, twist=True), [], np.zeros(3)),
+            ('trlog2:se2', lambda: base.trlog2(T2), [T2], None),
+            ('SO3.Exp:zero', lambda: SO3.Exp(np.zeros(3)).A, [], np.eye(3)),
+            ('SO3.Exp', lambda: SO3.Exp(w).A, [w], ref_expm(skew_np(w))),
+            ('SE3.Exp:zero', lambda: SE3.Exp(np.zeros(6)).A, [], np.eye(4)),
+            ('SE3.Exp', lambda: SE3.Exp(tw).A, [tw], ref_expm(skewa_np(tw))),
+            ('SO2.Exp:zero', lambda: SO2.Exp(0.0).A, [], np.eye(2)),
+            ('SE2.Exp:zero', lambda: SE2.Exp(np.zeros(3)).A, [], np.eye(3)),
+            ('Twist3.exp:zero-theta', lambda: Twist3(tw).exp(0).A, [tw], np.eye(4)),
+            ('Twist3.exp', lambda: Twist3(tw).exp().A, [tw], ref_expm(skewa_np(tw))),
+            ('Twist2.exp:zero-theta', lambda: Twist2([1.0, -2.0, 0.4]).exp(0).A, [], np.eye(3)),
+            ('SO3.log', lambda: SO3(Rg).log(), [Rg], skew_np(u * 0.7)),
+            ('SE3.log:twist', lambda: SE3(Tg).log(twist=True), [Tg], None),
+            ('SE3.log:identity', lambda: SE3().log(twist=True), [], np.zeros(6)),
+        ]
+        same_arr = lambda a, b: a.shape == b.shape and a.dtype == b.dtype and bool(np.array_equal(a, b, equal_nan=True))
+
+        def run_one(name, f):
+            with np.errstate(all='ignore'):
+                return np.asarray(f())
+        base_res, args_snap = {}, {}
+        for name, f, args, ref in E:
+            try:
+                r = run_one(name, f)
+            except Exception as ex:
+                ctx.fail(f'oracle:alias:{name}:raises:{type(ex).__name__}', f"{name} raises {type(ex).__name__}: {ex}", {'entry': name})
+                continue
+            base_res[name] = r.copy()
+            ctx.case(('alias-base', name))
+            if ref is not None and not maxerr(r, np.asarray(ref, float)) <= 1e-9:
+                ctx.fail(f'oracle:alias:{name}:baseline-differs-from-reference', f"{name} differs from the independent reference", {'entry': name, 'got': r.tolist(), 'want': np.asarray(ref).tolist()})
+        live = []      # results kept alive: a later result must not share memory with them
+        for name, f, args, ref in E:
+            if name not in base_res:
+                continue
+            r = run_one(name, f)
+            ctx.count('oracle:alias:entries')
+            ctx.case(('alias', name))
+            rp = {'entry': name, 'procedure': 'call; overwrite the returned array with NaN in place; repeat this and every other entry point'}
+            if not same_arr(r, base_res[name]):
+                ctx.fail(f'oracle:alias:{name}:not-repeatable', f"{name}: a second identical call gives a different result", dict(rp, first=base_res[name].tolist(), second=r.tolist()))
+                break
+            if any(np.shares_memory(r, a) for a in args):
+                ctx.fail(f'oracle:alias:{name}:shares-memory-with-argument', f"{name}: the result shares memory with an argument", rp)
+            if any(np.shares_memory(r, q) for _, q in live):
+                other = next(n for n, q in live if np.shares_memory(r, q))
+                ctx.fail(f'oracle:alias:{name}:shares-memory-with-previous-result', f"{name}: the result shares memory with an earlier result of {other}", dict(rp, other=other))
+            snap = [a.copy() for a in args]
+            if r.dtype.kind in 'fc' and r.flags.writeable and r.size:
+                r[...] = np.nan          # the caller modifies what it was given, in place
+            elif r.dtype.kind in 'fc' and r.size:
+                ctx.fail(f'oracle:alias:{name}:read-only-result', f"{name}: the returned array is read-only", rp)
+            if any(not same_arr(a, b) for a, b in zip(args, snap)):
+                ctx.fail(f'oracle:alias:{name}:argument-changed-by-writing-result', f"{name}: writing into the result changed an argument", rp)
+            live.append((name, r))
+            bad = None
+            for name2, f2, _, _ in E:
+                if name2 not in base_res:
+                    continue
+                try:
+                    r2 = run_one(name2, f2)
+                except Exception as ex:
+                    bad = (name2, f"raises {type(ex).__name__}: {ex}")
+                    break
+                if not same_arr(r2, base_res[name2]):
+                    bad = (name2, f"returns {r2.tolist()} instead of {base_res[name2].tolist()}")
+                    break
+            if bad:
+                ctx.fail(f'oracle:alias:{name}:overwriting-the-result-corrupts-later-calls',
+                         f"after overwriting in place the array returned by {name}, {bad[0]} {bad[1][:300]}", dict(rp, corrupted_entry=bad[0], detail=bad[1][:600]))
+                break        # the shared state stays corrupted: later entries would only repeat the same finding
+
     # the witness of C03_trexp_so3_total_refuted replayed on the implementation (|w| between the two thresholds)
     if 4 * K['k_zero'] < K['k_unit'] and K['k_zero'] >= 10 and K['k_unit'] <= 100:   # the KNOWN band is 10 eps .. 100 eps
         wv = np.array([math.sqrt(K['k_zero'] * K['k_unit']) * EPS, 0.0, 0.0])
@@ -1025,6 +1272,7 @@ def oracle(ctx, K):
     logexp3(ctx.n(2000, 60000))
     two_d(ctx.n(1200, 40000))
     classes(ctx.n(150, 3000))
+    alias()     # last: if an entry point leaks shared state, poisoning it would falsify everything after it
     for br in ('identity', 'half-turn', 'general'):
         if not ctx.stats.get('hit:explog3:' + br):
             ctx.fail('oracle:coverage:' + br, f"the oracle never exercised the {br} branch of trlog", no_input=True)
